@@ -76,10 +76,13 @@ func knownCases() []tcase {
 		{Name: "ok-pppoe-padt-twice", Kind: "pppoe", Path: "padt", Prefix: "established", Second: "seq:padt", P: ppp},
 		{Name: "kf-teardown-parked", Note: "admin terminate parked in sendPADT, client PADT meanwhile: two Accounting-Stops", Kind: "teardown", Path: "admin-id", Prefix: "established", Second: "parked:client-padt", ParkAt: "padt", P: full},
 		{Name: "kf-teardown-parked-maps", Kind: "teardown", Path: "client-padt", Prefix: "established", Second: "parked:coa-disconnect", ParkAt: "maps", P: full},
+		{Name: "kf-teardown-stale-terminate-all", Note: "TerminateAll is busy with one session of its snapshot while another one ends by a client PADT; it then reaches that session through the stale pointer: no second Stop (seeded regression C08-D)", Kind: "teardown", Path: "terminate-all", Prefix: "established", Second: "stale:client-padt", ParkAt: "padt", P: full},
+		{Name: "kf-teardown-stale-by-username", Kind: "teardown", Path: "admin-user", Prefix: "authed", Second: "stale:coa-disconnect", ParkAt: "padt", P: full},
 		{Name: "ok-teardown-admin-then-coa", Kind: "teardown", Path: "admin-mac", Prefix: "established", Second: "seq:coa-disconnect", P: full},
 		{Name: "ok-teardown-terminate-all", Kind: "teardown", Path: "terminate-all", Prefix: "established", Second: "none", P: full},
 		{Name: "kf-submgr-parked", Note: "TerminateSession parked in ReleaseIPv4, Disconnect-Request meanwhile, address re-used: released under the new holder, two terminate events", Kind: "submgr", Path: "admin", Prefix: "active", Second: "parked:coa-disconnect", ParkAt: "alloc", P: sub},
 		{Name: "kf-submgr-parked-idle", Kind: "submgr", Path: "idle", Prefix: "addressed", Second: "parked:admin", ParkAt: "alloc", P: sub},
+		{Name: "ok-submgr-stale-sweep", Note: "the idle sweep is releasing the first of three expired sessions when another one of its list is disconnected by RADIUS; the sweep then comes to it: nothing more happens", Kind: "submgr", Path: "idle", Prefix: "active", Second: "stale:coa-disconnect", ParkAt: "alloc", P: withBg2(sub)},
 		{Name: "ok-submgr-coa-then-admin", Kind: "submgr", Path: "coa-disconnect", Prefix: "active", Second: "seq:admin", P: sub},
 		{Name: "ok-submgr-session-timeout", Kind: "submgr", Path: "session-timeout", Prefix: "active", Second: "none", P: sub},
 	}
@@ -87,7 +90,11 @@ func knownCases() []tcase {
 
 func withShape(p params, shape string) params { p.ReqShape = shape; return p }
 func withMAC2(p params) params                { p.MAC2 = hexb{0x02, 0x16, 0x00, 0x00, 0x00, 0x30}; return p }
-func withCid2(p params) params                { p.Cid2 = hexb("eth 1/2/3:200"); return p }
+func withBg2(p params) params {
+	p.BgMACs = []hexb{{0x02, 0x16, 0, 0, 0, 0x11}, {0x02, 0x16, 0, 0, 0, 0x12}}
+	return p
+}
+func withCid2(p params) params { p.Cid2 = hexb("eth 1/2/3:200"); return p }
 
 func TestReplayKnown(t *testing.T) {
 	dump := os.Getenv("C16_WRITE_REPLAYS")
